@@ -10,6 +10,10 @@ R5.1 equivariance: (q, qd, gravity) moved by a rigid transform G (unit quaternio
      and every non-root joint coordinate / velocity UNCHANGED.
 R5.2 sibling order: the same model with its links listed in another (topologically valid) order gives
      the same per-link results, permuted.
+R5.4 [AVN, exhaustive] scan.tree / scan.link_types / scan._take deliver to every link its own inputs and its
+     own parent's result, and restore link order, for every forest of <= 5 (thorough: 6) links (shared
+     with C01 R1.2): sibling order and merging change the forest shape, and this is what makes the
+     instantiated runs below representative.
 R5.3 components: two models merged into one system give, link by link and coordinate by
      coordinate, exactly what each gives alone (generalized pipeline: exact mass-matrix inverse).
 Decided by random interpretation in GF(p): both runs evaluate the same AST walk on images of the
@@ -286,6 +290,9 @@ ORDER = [
      [(0, 3, 2, 1, 4), (0, 2, 4, 3, 1)]),
 ]
 ORDER_THOROUGH = [
+    ('world-attached hinge root and free root with one child each',
+     [dict(parent=-1, joints=H), dict(parent=-1, joints=F), dict(parent=0, joints=S), dict(parent=1, joints=H)],
+     [(1, 0, 3, 2), (1, 3, 0, 2)]),
     ('two free roots with one child each, roots and children interleaved',
      [dict(parent=-1, joints=F), dict(parent=-1, joints=F), dict(parent=0, joints=S), dict(parent=1, joints=H + S)],
      [(1, 0, 3, 2), (1, 3, 0, 2), (0, 2, 1, 3)]),
@@ -326,13 +333,16 @@ PARTS = [
     ('free root with a hinge child', [dict(parent=-1, joints=F), dict(parent=0, joints=H)]),
     ('free root with slide and hinge children', [dict(parent=-1, joints=F), dict(parent=0, joints=S), dict(parent=0, joints=H)]),
     ('free root - slide-hinge stack - hinge chain', [dict(parent=-1, joints=F), dict(parent=0, joints=S + H), dict(parent=1, joints=H)]),
+    ('double pendulum hinged to the world', [dict(parent=-1, joints=H), dict(parent=0, joints=H)]),
+    ('slider on a world-attached rail with a hinge child', [dict(parent=-1, joints=S), dict(parent=0, joints=H)]),
 ]
 
 
 def components(U, rep, tier):
   s0 = int(os.environ.get('VERIF_SEED', '0') or 0)
   steps = 1 if tier == 'quick' else 2
-  pairs = [(0, 1)] if tier == 'quick' else [(0, 1), (1, 2), (2, 0)]
+  # world-attached parts listed before AND after free-floating ones (the world is 'link -1' for every root)
+  pairs = [(0, 3), (4, 1)] if tier == 'quick' else [(0, 3), (4, 1), (0, 1), (1, 2), (2, 0), (3, 4)]
   for backend in BACKENDS:
     f = U.func('brax.%s.pipeline.step' % backend)
     for ia, ib in pairs:
@@ -364,6 +374,11 @@ def components(U, rep, tier):
 
 def run(U, rep, tier):
   default_repo_of[0] = U.repo
+  # R5.4: the regrouping every pipeline relies on is order-faithful for EVERY forest (exhaustive up to 5 / 6
+  # links): each link receives its own data and its own parent's carry, and link order is restored.  The
+  # whole-pipeline runs below instantiate a few link orders; this closes the gap over forest shapes.
+  from braxlint.props import c01
+  c01.scan_spec(U, rep, tier, rule='R5.4')
   equivariance(U, rep, tier)
   sibling_order(U, rep, tier)
   components(U, rep, tier)
